@@ -1407,7 +1407,13 @@ static void run_case(Rng& r, Ctx& c)
       std::vector<double> yd(n);
       std::vector<LD> zero(n, 0);
       for (int i = 0; i < n; i++) yd[i] = (double)y[i];
-      double q = ratioVec(yd, zero, m, 256. * (nnzS + 2));
+      int wr = 0;
+      double q = ratioVec(yd, zero, m, 256. * (nnzS + 2), &wr);
+      if (c.verbose)
+      {
+        fprintf(stderr, "S-nullspace worst row %d: sum=%.6Lg bound=%.6Lg sdiag=%.6g tc=%.6g\n", wr, y[wr], m[wr], sdiag[wr], tc[wr]);
+        for (size_t k = 0; k < S.v.size(); k++) if (S.r[k] == wr) fprintf(stderr, "   col %d S=%.17g sqrtC=%.17Lg\n", S.c[k], S.v[k], sq[S.c[k]]);
+      }
       c.check("S-nullspace", "C15:shiftop:S-sqrtTildeC-not-zero:" + cls, q <= 1, q, 1);
       std::map<std::pair<int, int>, double> ent;
       std::vector<double> sd(n, 0.);
